@@ -4,7 +4,7 @@ which objects those are."""
 from __future__ import annotations
 from abc import ABC
 from dataclasses import dataclass
-from typing import Annotated
+from typing import Annotated, Union
 from geneticengine.grammar.metahandlers.ints import IntRange
 from geneticengine.grammar.metahandlers.ints import IntervalRange
 from geneticengine.grammar.metahandlers.lists import ListSizeBetween
@@ -30,9 +30,16 @@ class D(E):
     v: Annotated[int, Dependent("k", lambda k: IntRange(0, k))]
 
 
+@dataclass
+class Un(E):
+    # Union types that mention refinement objects: rebuilt -- as new, unequal objects -- at every reading of the annotations
+    u: Union[W, Annotated[list[E], ListSizeBetween(1, 2)]]
+    w: Union[Annotated[int, IntRange(0, 3)], W]
+
+
 def grammar():
     from geneticengine.grammar.grammar import extract_grammar
-    return extract_grammar([W, N, D], E)
+    return extract_grammar([W, N, D, Un], E)
 
 
 def ill_typed(p) -> list:
@@ -52,6 +59,18 @@ def ill_typed(p) -> list:
             else:
                 todo += [(f"{path}.xs[{i}]", x) for i, x in enumerate(v.xs)]
             todo.append((path + ".l", v.l))
+        elif isinstance(v, Un):
+            if isinstance(v.u, list):
+                if not 1 <= len(v.u) <= 2:
+                    bad.append(f"{path}.u = {v.u!r} is not a list of 1..2 elements")
+                todo += [(f"{path}.u[{i}]", x) for i, x in enumerate(v.u)]
+            else:
+                todo.append((path + ".u", v.u))
+            if type(v.w) is int:
+                if not 0 <= v.w <= 3:
+                    bad.append(f"{path}.w = {v.w!r}")
+            else:
+                todo.append((path + ".w", v.w))
         elif isinstance(v, D):
             if not (type(v.k) is int and 1 <= v.k <= 3 and type(v.v) is int and 0 <= v.v <= v.k):
                 bad.append(f"{path}: D(k={v.k!r}, v={v.v!r}) violates v in 0..k")
